@@ -243,14 +243,19 @@ def _handle_transient_retry(
                 logger.warning("Stage %s not found during context update", message.stage_id)
                 # Still push retry message even if stage not found
                 txn_helper.execute_atomic(
+                    source_message=message,
                     messages_to_push=[(retry_message, delay.total_seconds())],
                     handler_name="RunTask",
                 )
                 return
             fresh_stage.context.update(context_update)
-            # Atomic: store stage with context update + push retry message
+            # Atomic: store stage with context update + push retry message +
+            # mark this delivery processed. Without the mark in the same
+            # commit, a crash right after it redelivers this message next to
+            # the retry copy: two live RunTask chains for one task.
             txn_helper.execute_atomic(
                 stage=fresh_stage,
+                source_message=message,
                 messages_to_push=[(retry_message, delay.total_seconds())],
                 handler_name="RunTask",
             )
@@ -260,8 +265,10 @@ def _handle_transient_retry(
             f"updating context for task {task_model.name}",
         )
     else:
-        # Atomic: push retry message (no stage update needed)
+        # Atomic: push retry message (no stage update needed) + mark this
+        # delivery processed
         txn_helper.execute_atomic(
+            source_message=message,
             messages_to_push=[(retry_message, delay.total_seconds())],
             handler_name="RunTask",
         )
